@@ -52,6 +52,7 @@ def c17_case(draw):
     return {"middle": middle, "sink": sink, "invalid": invalid, "rs_runs": rs_runs, "fail_at": fail_at, "flags": flags,
             "ctx_mode": draw(st.sampled_from(["all", "all", "all", "drop_one", "extra"])),
             "set_fix": draw(st.booleans()), "max_runs": draw(st.sampled_from([None, None, 1, 100])),
+            "yaml_dry_run": draw(st.integers(0, 4)) == 0,
             "rs_in_file_ctx": draw(st.booleans())}
 
 
@@ -142,6 +143,9 @@ def build(case: Dict[str, Any]) -> Dict[str, Any]:
                 reject = {3}
     elif fail_at is not None:
         ctx_values["divisor"] = 0.0
+    yaml_dry = bool(case.get("yaml_dry_run")) and rs is not None
+    if yaml_dry:
+        rs["dry_run"] = True  # the dry run is requested in the configuration, not on the command line
     # ---- context flags ---------------------------------------------------------------------------------
     need_cli = [k for k in required if k not in rs_keys]
     supplied = list(need_cli)
@@ -204,8 +208,8 @@ def build(case: Dict[str, Any]) -> Dict[str, Any]:
     elif reject is not None:  # run-space problems / cap (detected after validation, before execution)
         exp["codes"] = set(reject)
     elif dropped is not None:
-        exp["codes"] = {0, 3} if ("dry_run" in flags or "rs_dry_run" in flags) else {3}
-    elif "rs_dry_run" in flags or "dry_run" in flags:
+        exp["codes"] = {0, 3} if ("dry_run" in flags or "rs_dry_run" in flags or yaml_dry) else {3}
+    elif "rs_dry_run" in flags or "dry_run" in flags or yaml_dry:
         exp["codes"] = {0}
     else:
         runs = n if n > 0 else 1
@@ -221,7 +225,7 @@ def build(case: Dict[str, Any]) -> Dict[str, Any]:
     exp["class"] = ("structural:" + inv) if structural else ("validate" if "validate" in flags and not structural else
                                                               "rejected:" + inv if reject is not None else
                                                               "missing_key" if dropped is not None else
-                                                              "dry" if flags else "run_fail" if fail_at is not None else "run_ok")
+                                                              "dry" if (flags or yaml_dry) else "run_fail" if fail_at is not None else "run_ok")
     return {"text": text, "argv": argv, "expected": exp, "nodes": nodes, "n_marker_ops": sum(1 for x in nodes if x["p"] == "VMarkerOp")}
 
 
@@ -255,6 +259,8 @@ def check_case(case: Dict[str, Any], col: Collector, workroot: str = ".", also_s
            ["ctx:" + case["ctx_mode"], "run_space" if case["rs_runs"] else "no_run_space"]
     if case["max_runs"] is not None:
         labs.append("flag:max_runs")
+    if case.get("yaml_dry_run") and case["rs_runs"]:
+        labs.append("yaml_dry_run")
     if any(a == "--set" for a in b["argv"]):
         labs.append("flag:set")
     nflags = len(case["flags"]) + (case["max_runs"] is not None) + any(a == "--set" for a in b["argv"]) + (case["ctx_mode"] != "all")
@@ -327,7 +333,7 @@ def valid(case: Any) -> bool:
 
 def label_requirements(tier: str) -> Dict[str, Any]:
     req: Dict[str, Any] = {"class:run_ok": 0.03, "class:run_fail": 0.02, "class:dry": 0.02, "class:validate": 0.03, "class:missing_key": 0.02,
-                           "flag:set": 0.02, "flag:max_runs": 0.1, "subprocess_crosscheck": 16}
+                           "flag:set": 0.02, "flag:max_runs": 0.1, "subprocess_crosscheck": 16, "yaml_dry_run": 0.03}
     for i in set(INVALID) - {"none"}:
         req["invalid:" + i] = 0.008
     return req
